@@ -14,6 +14,7 @@ import (
 	"time"
 
 	"com.tuntun.rangers/node/src/common"
+	"com.tuntun.rangers/node/src/middleware"
 	"com.tuntun.rangers/node/src/middleware/types"
 	"com.tuntun.rangers/node/src/service"
 	"com.tuntun.rangers/node/src/storage/account"
@@ -41,6 +42,14 @@ type c06Plan struct {
 	Seed   uint64     `json:"seed"`
 	Forks  string     `json:"forks"`
 	Blocks []c06Block `json:"blocks"`
+	// StakeOps (stake-opcode plans): a contract that is the account of a registered miner executes the
+	// node's STAKE / UNSTAKE / UNSTAKEALL opcodes, one per block
+	StakeOps []c06StakeOp `json:"stake_ops,omitempty"`
+}
+
+type c06StakeOp struct {
+	Op  string `json:"op"`            // stake unstake unstakeall release
+	Wei string `json:"wei,omitempty"` // the opcode's amount operand
 }
 
 type c06 struct{}
@@ -59,11 +68,11 @@ func (c06) Budget(tier string) runner.Budget {
 
 func (c06) Describe() runner.Description {
 	return runner.Description{
-		Rule:        "each plan: 3..16 blocks, one transaction per block in ~80% of blocks (so the per-transaction statement is judged), value-heavy mix: multi-target transfers that fail part-way, zero/fractional/>18-decimal/negative/huge amounts, fee with insufficient balance, contract create with endowment (succeeding and failing; native and wrapped-Ethereum type 188 form), calls with value into programs that forward value, AUTHCALLs with value through a contract that holds an externally owned account's authorisation (sponsor = origin, often the poor account), revert, burn all gas after moving value, self-destruct to the caller / to themselves, gas limits at and below the intrinsic cost (gas starvation), miner apply/add-stake/refund (stake lock and escrow), heights jumping to escrow release heights. After every block over the closed universe U (harness accounts, fee account, every contract ever created, miner accounts, escrow beneficiaries): sum(after) - sum(before) = + escrow released at this height (read from the escrow entries before the block) - stake locked by accepted apply/add-stake - balance of a contract that self-destructed naming itself; every balance in [0, 2^256); a failed transaction leaves the sum unchanged; an accepted stake refund moves exactly what leaves the miner's recorded stake into the escrow of its release height. distinct_nontrivial = distinct (tx kind, status, sum-delta sign) sequences with at least one failed value-moving transaction.",
+		Rule:        "each plan: 3..16 blocks, one transaction per block in ~80% of blocks (so the per-transaction statement is judged), value-heavy mix: multi-target transfers that fail part-way, zero/fractional/>18-decimal/negative/huge amounts, fee with insufficient balance, contract create with endowment (succeeding and failing; native and wrapped-Ethereum type 188 form), calls with value into programs that forward value, AUTHCALLs with value through a contract that holds an externally owned account's authorisation (sponsor = origin, often the poor account), revert, burn all gas after moving value, self-destruct to the caller / to themselves, gas limits at and below the intrinsic cost (gas starvation), miner apply/add-stake/refund (stake lock and escrow), heights jumping to escrow release heights. After every block over the closed universe U (harness accounts, fee account, every contract ever created, miner accounts, escrow beneficiaries): sum(after) - sum(before) = + escrow released at this height (read from the escrow entries before the block) - stake locked by accepted apply/add-stake - balance of a contract that self-destructed naming itself; every balance in [0, 2^256); a failed transaction leaves the sum unchanged; an accepted stake refund moves exactly what leaves the miner's recorded stake into the escrow of its release height. Stake-opcode plans (6%): a contract that is the account of a registered validator executes STAKE / UNSTAKE / UNSTAKEALL with seeded operands (whole tokens, fractions, 1 wei, amounts that dismiss the miner), one per block, with jumps to the release heights: balances + recorded stake + escrow of the release heights must stay constant. distinct_nontrivial = distinct (tx kind, status, sum-delta sign) sequences with at least one failed value-moving transaction.",
 		Assumptions: []string{"the address universe is closed under the generated transactions (targets, beneficiaries and created contracts are added as they appear)", "block rewards are scheduled into per-height escrow and only enter balances when released; the released amount is read from the escrow, not recomputed"},
 		Real:        []string{"core/vmexecutor", "executor (operator, contract, miner)", "vm (EVM: CALL/CREATE/SELFDESTRUCT with value)", "service (ChangeAssets, fee processing, miner/refund/reward managers)", "storage/account balances in the bound token contract"},
 		Stub:        []string{"ConsensusHelper", "network", "NTP clock"},
-		FaultKinds:  []string{"gas_starvation", "map_order_seed", "height_jump_to_escrow_release", "failed_tx", "authcall_with_value"},
+		FaultKinds:  []string{"gas_starvation", "map_order_seed", "height_jump_to_escrow_release", "failed_tx", "authcall_with_value", "stake_opcode_stake", "stake_opcode_unstake", "stake_opcode_unstakeall"},
 	}
 }
 
@@ -148,6 +157,19 @@ func (c06) Gen(seed uint64, tier string) json.RawMessage {
 	if r.Chance(0.25) {
 		p.Forks = string(node.ForksDevLike)
 	}
+	if r.Chance(0.06) {
+		p.Forks = string(node.ForksLatestSync)
+		amounts := []string{"5000000000000000000", "1000000000000000000", "1500000000000000000", "900000000000000000", "1", "250000000000000000000", "100000000000000000000", "0"}
+		for i, n := 0, r.Range(1, 4); i < n; i++ {
+			op := c06StakeOp{Op: []string{"stake", "unstake", "unstake", "unstake", "unstakeall"}[r.Intn(5)], Wei: amounts[r.Intn(len(amounts))]}
+			p.StakeOps = append(p.StakeOps, op)
+			if r.Chance(0.3) {
+				p.StakeOps = append(p.StakeOps, c06StakeOp{Op: "release"})
+			}
+		}
+		b, _ := json.Marshal(p)
+		return b
+	}
 	nb := r.Range(3, 9)
 	if r.Chance(0.3) {
 		nb = r.Range(10, 16)
@@ -189,6 +211,139 @@ func (c06) Gen(seed uint64, tier string) json.RawMessage {
 	return b
 }
 
+// c06StakeOps: contract S is the account of a registered validator (stake 600) and executes one stake
+// opcode per block with a seeded amount operand. Value lives in balances, in the miner's recorded stake
+// and in the escrow of the release heights: their total must not change ("miner stake and stake refunds
+// decrease and increase the sum by exactly the amount involved").
+func c06StakeOps(p *c06Plan, ec *execChain, st *simrt.Stats, log *simrt.Log) *simrt.Violation {
+	viol := func(ev int, clause, where, f string, a ...interface{}) *simrt.Violation {
+		return simrt.Violationf("C06", clause, where, ev, f, a...)
+	}
+	saddr := common.HexToAddress("0x5a11ed0000000000000000000000000000000777")
+	common.SetBlockHeight(ec.height)
+	s0 := ec.state()
+	s0.SetCode(saddr, []byte{0x00})
+	s0.SetNonce(saddr, 1)
+	s0.AddBalance(saddr, tokens(1000))
+	commitState := func(s *account.AccountDB) {
+		root, err := s.Commit(true)
+		if err == nil {
+			err = middleware.AccountDBManagerInstance.GetTrieDB().Commit(root, false)
+		}
+		if err != nil {
+			panic(runner.InfraError{Msg: "c06 stake-op deploy: " + err.Error()})
+		}
+		ec.root = root
+	}
+	commitState(s0)
+	apply := node.TxSpec{K: "apply", From: 0, Miner: 21, MType: 0, Stake: 600, AcctHex: saddr.GetHexString(), Salt: fmt.Sprintf("c06so-%d", p.Seed)}.Build()
+	rcs, _, _, _ := ec.execBlock(ec.height+1, []*types.Transaction{apply}, true)
+	if len(rcs) != 1 || rcs[0].Status != types.ReceiptStatusSuccessful {
+		st.Probe("stake_opcode_setup_refused")
+		return nil
+	}
+	mid := node.MinerID(21)
+	universe := []common.Address{saddr, common.FeeAccount}
+	for i := 0; i < 8; i++ {
+		universe = append(universe, common.HexToAddress(node.Account(i)))
+	}
+	heights := map[uint64]bool{}
+	total := func() *big.Int {
+		s := ec.state()
+		t := new(big.Int)
+		for _, a := range universe {
+			t.Add(t, s.GetBalance(a))
+		}
+		if m := service.MinerManagerImpl.GetMiner(mid, s); m != nil {
+			t.Add(t, tokens(m.Stake))
+		}
+		for h := range heights {
+			for _, v := range s.GetAllRefund(service.SimRefundAddress(h)) {
+				t.Add(t, v)
+			}
+		}
+		return t
+	}
+	rb := common.GetRewardBlocks()
+	for i, so := range p.StakeOps {
+		st.Ops++
+		height := ec.height + 1
+		if so.Op == "release" {
+			var hs []uint64
+			for h := range heights {
+				if h > ec.height {
+					hs = append(hs, h)
+				}
+			}
+			if len(hs) == 0 {
+				continue
+			}
+			sort.Slice(hs, func(a, b int) bool { return hs[a] < hs[b] })
+			height = hs[0]
+			st.Fault("height_jump_to_escrow_release")
+		}
+		if rb > 0 && height%rb == 0 {
+			height++ // not a reward height: rewards enter the escrow there
+		}
+		wei, _ := new(big.Int).SetString(so.Wei, 10)
+		if wei == nil {
+			wei = new(big.Int)
+		}
+		var txs []*types.Transaction
+		where := "release"
+		if so.Op != "release" {
+			var code evmasm.Code
+			switch so.Op {
+			case "stake":
+				code.PushBytes(saddr.Bytes()).PushBytes(common.BigToHash(wei).Bytes()).Op(0xee)
+			case "unstake":
+				code.PushBytes(saddr.Bytes()).PushBytes(common.BigToHash(wei).Bytes()).Op(0xef)
+			default:
+				code.PushBytes(saddr.Bytes()).Op(0xeb)
+			}
+			code.Op(evmasm.POP, evmasm.STOP)
+			common.SetBlockHeight(ec.height)
+			s1 := ec.state()
+			s1.SetCode(saddr, code)
+			commitState(s1)
+			txs = []*types.Transaction{node.TxSpec{K: "call", From: 1 + i%3, To: saddr.GetHexString(), Gas: 60000000, Salt: fmt.Sprintf("c06so-%d-%d", p.Seed, i)}.Build()}
+			left := uint64(0)
+			if m := service.MinerManagerImpl.GetMiner(mid, ec.state()); m != nil {
+				left = m.Stake
+			}
+			heights[service.SimRefundHeight(height, left, 0, mid)] = true
+			where = "opcode-" + so.Op
+			if so.Op != "unstakeall" && new(big.Int).Mod(wei, oneToken).Sign() != 0 {
+				where += "-fraction-of-a-token"
+			}
+			st.Fault("stake_opcode_" + so.Op)
+		}
+		before := total()
+		rcs, _, _, _ := ec.execBlock(height, txs, true)
+		after := total()
+		status := -1
+		if len(rcs) == 1 {
+			status = int(rcs[0].Status)
+		}
+		stake := uint64(0)
+		if m := service.MinerManagerImpl.GetMiner(mid, ec.state()); m != nil {
+			stake = m.Stake
+		}
+		log.Add("%d %s wei=%s height=%d status=%d stake=%d total %s -> %s", i, so.Op, so.Wei, height, status, stake, before, after)
+		st.Evaluations++
+		st.State(simrt.HashString(fmt.Sprintf("so|%s|%s|%d", so.Op, so.Wei, status)))
+		st.Nontrivial(simrt.HashString(fmt.Sprintf("so|%s|%s|%d", so.Op, so.Wei, status)))
+		if d := new(big.Int).Sub(after, before); d.Sign() != 0 {
+			dir := "created"
+			if d.Sign() < 0 {
+				dir = "destroyed"
+			}
+			return viol(i, "sum-not-conserved-"+dir, where, "balances + recorded stake + escrow of the release heights changed by %s across block %d (%s %s wei by the miner's contract account; recorded stake afterwards %d)", d.String(), height, so.Op, so.Wei, stake)
+		}
+	}
+	return nil
+}
+
 func (c06) Exec(raw json.RawMessage, st *simrt.Stats, log *simrt.Log) *simrt.Violation {
 	var p c06Plan
 	if err := json.Unmarshal(raw, &p); err != nil {
@@ -198,6 +353,9 @@ func (c06) Exec(raw json.RawMessage, st *simrt.Stats, log *simrt.Log) *simrt.Vio
 	forks := node.Forks(p.Forks)
 	disk := simdisk.NewDisk()
 	n := node.Boot(disk, forks, false)
+	if len(p.StakeOps) > 0 {
+		return c06StakeOps(&p, newExecChain(n), st, log)
+	}
 	// setup block through the chain: fund harness accounts, deploy one contract of every program kind used by calls
 	var txs []*types.Transaction
 	for i := 4; i < 8; i++ {
